@@ -14,7 +14,8 @@ VIOLATES_FN = "violates max_multistore_cache_count"
 RULE = ("case = initial account/slot table + script tree (depth <= 6, <= 60 ops, <= 12 precompile calls) of EVM writes "
         "(Add/SubBalance incl. sub-unibi dust, SetNonce, SetCode, SetState, selfdestruct, create, AddLog, refund, access list), "
         "reads (GetBalance, GetState), Snapshot/RevertToSnapshot frames and precompile invocations (CacheCtxForPrecompile, "
-        "SavePrecompileCalledJournalChange, CommitCacheCtx, bank SendCoins of unibi on the cache ctx, failing or not) executed "
+        "SavePrecompileCalledJournalChange, CommitCacheCtx; body on the cache ctx VALUE obtained there: bank SendCoins of unibi, "
+        "EVM writes (ERC20-style slot updates, logs, nonces), nested frames and NESTED precompile calls, failing or not) executed "
         "on the real statedb.StateDB + bank keeper; blocked module accounts (distribution, fee collector) as credit targets so that the flush before a precompile call fails half-way; write-backs of tx-start values after later calls; evm.create on funded objects; first the historic failure shapes F2/F2b/F2c/F2d, probe16 and a 12-call "
         "script; non-trivial = a frame (or failing call) that contains a precompile call is reverted while an EVM write or "
         "bank move made before/inside/after it has to be kept or dropped; distinct = distinct input")
@@ -66,10 +67,18 @@ def _prog(o):
         return "OReadState %s %s" % (_z(o[1]), _z(o[2]))
     if k == "fr":
         return "PFrame %s %s" % (_body(o[1]), "true" if o[2] else "false")
+    if k == "bs":
+        return "OBankSend %s %s %s" % (_z(o[1]), _z(o[2]), _z(o[3]))
+    if k == "is":
+        return "OIncState %s %s %s" % (_z(o[1]), _z(o[2]), _z(o[3]))
     if k == "pc":
-        return "PPrecompile [%s] %s" % ("; ".join("(%s, %s, %s)" % (_z(s[0]), _z(s[1]), _z(s[2])) for s in o[1]),
-                                        "true" if o[2] else "false")
+        return "PPrecompile %s %s" % (_body(_pcbody(o[1])), "true" if o[2] else "false")
     raise ValueError("unknown op %r" % (o,))
+
+
+def _pcbody(items):
+    """body of a precompile call: ops; a bare [f, t, amt] triple (older corpus entries) is a bank send"""
+    return [x if (x and isinstance(x[0], str)) else ["bs", x[0], x[1], x[2]] for x in items]
 
 
 def _body(ops):
@@ -111,6 +120,8 @@ def _walk(ops, depth=0, in_rev=False):
         yield o, depth, in_rev
         if o[0] == "fr":
             yield from _walk(o[1], depth + 1, in_rev or o[2])
+        if o[0] == "pc":
+            yield from _walk([x for x in _pcbody(o[1]) if x[0] != "bs"], depth + 1, in_rev or o[2])
 
 
 def _has_pc(ops):
@@ -139,6 +150,8 @@ def nontrivial(rec):
                 seen_write = True
             if o[0] == "pc" and o[1]:
                 seen_write = True
+                if scan([x for x in _pcbody(o[1]) if x[0] in ("fr", "pc")], True):
+                    return True
         return False
     return scan(ops, False)
 
@@ -157,7 +170,9 @@ def classify(rec):
             name += "/reverted" if o[2] else "/kept"
         if name == "pc":
             pcs += 1
-            name += ("/fails" if o[2] else "/ok") + ("/sends" if o[1] else "/nosend")
+            b = _pcbody(o[1])
+            name += ("/fails" if o[2] else "/ok") + ("/sends" if any(x[0] == "bs" for x in b) else "/nosend") + \
+                    ("/evm-writes" if any(x[0] not in ("bs", "to") for x in b) else "")
         ks.append("op:" + name)
     ks.append("depth=%d" % maxd)
     ks.append("ops=%s" % ("1-5" if n <= 5 else "6-15" if n <= 15 else "16-30" if n <= 30 else "31+"))
@@ -185,7 +200,7 @@ def signature(rec):
 
 
 def input_size(inp):
-    return sum(10 + len(o[1]) * 3 if o[0] == "pc" else 10 for o, _, _ in _walk(inp["script"])) + len(inp["accs"]) + len(inp["stor"])
+    return sum(10 + len(o[1]) * 3 if o[0] == "pc" else 10 for o, _, _ in _walk(inp.get("script", []))) + len(inp["accs"]) + len(inp["stor"])
 
 
 def shrink_candidates(inp):
@@ -204,6 +219,10 @@ def shrink_candidates(inp):
             if o[0] == "pc" and o[1]:
                 for j in range(len(o[1])):
                     res.append(body[:i] + [["pc", o[1][:j] + o[1][j + 1:], o[2]]] + body[i + 1:])
+                inner = _pcbody(o[1])
+                if any(x[0] in ("fr", "pc") for x in inner):
+                    for sub in variants(inner):
+                        res.append(body[:i] + [["pc", sub, o[2]]] + body[i + 1:])
         return res
     for s in variants(inp["script"]):
         if s:
@@ -221,14 +240,17 @@ MANIFEST = {
         "text": ("Unbounded Coq theorem C04_frame_atomicity: for EVERY per-tx call limit, initial store and well-formed script "
                  "(any length and nesting of EVM writes incl. dust, nonce, code, storage, logs, refund, access list, create, "
                  "selfdestruct; reads; Snapshot/Revert frames; precompile calls succeeding / failing after OnRunStart / refused "
-                 "by the limit, whose bodies move unibi by bank sends mirrored into the StateDB) the state written by "
+                 "by the limit, whose bodies move unibi by bank sends mirrored into the StateDB, write EVM state, open frames and make "
+                 "nested precompile calls - the FunToken.sendToBank/sendToEvm -> ERC20 -> precompile pattern) the state written by "
                  "StateDB.Commit in the two-layer model of x/evm/statedb (journal + dirty counts + object cache over tx store "
                  "and cache store, as repaired by 72672e0) equals the final state of a copy-on-frame reference, i.e. a reverted "
                  "frame undoes exactly its own EVM and bank effects. Companion theorems: reverted frames are invisible up to "
                  "caching (P1), balance views agree inside every precompile body, reads see the reference, calls beyond "
                  "maxMultistoreCacheCount - or whose pre-run flush fails half-way because a blocked module account would have to be "
                  "credited - are refused without effect (the written prefix is undone), and vm_compute witnesses refute the property for the "
-                 "pre-fix behaviour (F2, F2b, F2c, F2d). The design's proof plan P1-P5 was completed; the bounded fallback "
+                 "pre-fix behaviour (F2, F2b, F2c, F2d) and for a precompile body that keeps the multistore object it was started with "
+                 "after a nested precompile call is reverted (C04_nested_stale_ctx_refuted; run_h with live:=false, proved equal to the "
+                 "main model for live:=true). The design's proof plan P1-P5 was completed; the bounded fallback "
                  "was not needed. The model is run on every check against the real statedb.StateDB + bank keeper on the "
                  "same generated scripts (two drivers: API calls one by one and through precompile.OnRunStart) and the "
                  "proved-sound checker Pb (reference vs observed) is evaluated on those traces; the call limit, the shape "
@@ -236,9 +258,11 @@ MANIFEST = {
         "design_ref": "DESIGN.md §5 C04",
     },
     "level_note": ("Proved about the hand-written model at the vm.StateDB interface (interpreter usage protocol), not about "
-                   "Go: the tie is the correspondence run (0 mismatches required) + generated facts. Precompile bodies are bank "
-                   "sends of unibi; EVM calls made from inside a precompile body, other coins / wasm state (same cache "
-                   "multistore, same snapshot), code table, gas and events are not modelled. Domain `wf` excludes bank sends "
+                   "Go: the tie is the correspondence run (0 mismatches required) + generated facts. Precompile bodies are scripts "
+                   "of unibi bank sends, StateDB writes, frames and nested precompile calls (what an EVM call made from inside a "
+                   "body amounts to at the vm.StateDB interface); other coins / wasm state (same cache "
+                   "multistore, same snapshot), code table, gas and events are not modelled - so a body that loses only NON-unibi "
+                   "bank writes is seen by the harness only when the reverted nested call moved unibi itself. Domain `wf` excludes bank sends "
                    "from/to an account that self-destructed earlier in the tx (there the bank sees 0 while the StateDB shows "
                    "later credits - documented boundary) and evm.create on an address with storage written in the tx. "
                    "Trusted: Coq kernel + vm_compute, the go/ast extractor, driver canonicalisation, check.py."),
